@@ -1102,7 +1102,9 @@ func isASCIIWhitespace(r rune) bool {
 // stringInSlice returns true if needle exists in haystack
 func stringInSlice(needle string, haystack []string) bool {
 	for _, straw := range haystack {
-		if strings.EqualFold(straw, needle) {
+		// strings.EqualFold would also fold U+017F (long s) into s, which
+		// no CSS keyword comparison does
+		if strings.ToLower(straw) == strings.ToLower(needle) {
 			return true
 		}
 	}
